@@ -59,7 +59,7 @@ pub const BUDGETS: [u64; 8] = [0, 1, 100, 1199, 1200, 1201, 2500, 60_000];
 pub static INFO: PropInfo = PropInfo {
     id: "C14",
     level: "exploration",
-    rule: "one evaluation = one simulated session (1-2 connections, both directions) with available_bytes_per_tick drawn from {0, 1, 100, 1199, 1200, 1201, 2500, 60000}, 1-4 channels per direction of all three kinds in random order (resend 0/10/100/300 ms), message lengths centred on the budget (A-1, A, A+1), on 0/1 and on the slice boundaries (1199..1201, 2399..2401, k*1200-1/0/+1) plus random small and sliced ones, lossy / blackout / lose-first links so that retransmission backlogs compete with fresh messages, sometimes several get_packets_to_send calls per tick. Every call is decoded and judged by the three necessary conditions (sum <= budget; a due, certainly unacknowledged reliable item left out would not have fitted into what its channel left; an unreliable message is whole or absent, absent only if it would not have fitted, never resurrected). Non-trivial = at least one item waited or was dropped for lack of budget AND at least one retransmission happened AND at least two channels carried payload in the run; distinct = distinct event-log fingerprints.",
+    rule: "one evaluation = one simulated session (1-2 connections, both directions) with available_bytes_per_tick drawn from {0, 1, 100, 1199, 1200, 1201, 2500, 60000}, 1-4 channels per direction of all three kinds in random order (resend 0/10/100/300 ms), message lengths centred on the budget (A-1, A, A+1), on 0/1 and on the slice boundaries (1199..1201, 2399..2401, k*1200-1/0/+1) plus random small and sliced ones, lossy / blackout / lose-first links so that retransmission backlogs compete with fresh messages, sometimes several get_packets_to_send calls per tick, and in half of the sessions 25-50 % of the (endpoint, tick) pairs without any (the next call then follows two or more update() calls). Every call is decoded and judged by the three necessary conditions (sum <= budget; a due, certainly unacknowledged reliable item left out would not have fitted into what its channel left; an unreliable message is whole or absent, absent only if it would not have fitted, never resurrected). Non-trivial = at least one item waited or was dropped for lack of budget AND at least one retransmission happened AND at least two channels carried payload in the run; distinct = distinct event-log fingerprints.",
     assumptions: &[
         "message payload bytes = lengths of the messages / slice payloads found by the crate's own decoder in the packets of the call (headers and ack packets are not counted, as in the statement)",
         "a slice that any delivered Ack packet may have acknowledged is never judged (the sent-packet table forgets packets after 3 s, so such an ack may or may not have been effective)",
@@ -533,6 +533,7 @@ pub fn gen_cfg(r: &mut Rng, budget: u64) -> SimCfg {
         link_up,
         link_down,
         shuffle_phases: r.chance(1, 2),
+        skip_send_pct: *r.pick(&[0u64, 0, 25, 50]),
     }
 }
 
